@@ -31,6 +31,9 @@ POOL = [
     "raise 1.try.nosuchprop.err",
     "assertEq(1, 2)",
     "<>",
+    "Either.A",
+    "[Either]@val",
+    "{e: _}",
 ]
 EMBEDDINGS = ["playground", "evalenv", "runtest"]
 
@@ -62,10 +65,10 @@ def run():
     sessions = [c["hist"] for c in payloads(res, "CASE ")]
     if not thorough:       # every (history of one program, probe) pair, and a seeded sample of the 2-program histories
         sessions = [s for s in sessions if len(s) == 2] + ck.rng.sample([s for s in sessions if len(s) == 3], 900)
-    # FreshObs: each program alone in a brand-new interpreter (one worker request = one new interpreter)
+    # FreshObs: each program alone in a newly started interpreter process
     fresh = {}
     freqs = [{"id": f"{emb}.{p}", "mode": "session", "embed": emb, "progs": [POOL[p]], "stdin": "l1\nl2\n"} for emb in EMBEDDINGS for p in range(n)]
-    fout = run_cases(freqs, label="C19 fresh")
+    fout = run_cases(freqs, label="C19 fresh", isolate=True)      # a newly started process each: built-in objects are process-wide
     for emb in EMBEDDINGS:
         for p in range(n):
             ex = fout[f"{emb}.{p}"]["extra"]
